@@ -381,12 +381,17 @@ def _r3(run, classes):
     run.subject('C03-R3')
 
     def filt(fn):
+        """the tests selecting species in every iteration over the composition (loop or comprehension), loop variable spelled 'species'"""
+        import re as _re
         out = []
         for l in ast.walk(fn):
-            if isinstance(l, ast.For) and norm(l.iter) in ('self._plasma.get_composition()', 'self._plasma.composition'):
+            if isinstance(l, ast.For) and norm(l.iter) in ('self._plasma.get_composition()', 'self._plasma.composition') and isinstance(l.target, ast.Name):
                 for s in l.body:
                     if isinstance(s, ast.If):
-                        out.append(norm(s.test))
+                        out.append(_re.sub(r'\b%s\b' % l.target.id, 'species', norm(s.test)))
+            if isinstance(l, ast.comprehension) and norm(l.iter) in ('self._plasma.get_composition()', 'self._plasma.composition') and isinstance(l.target, ast.Name):
+                for t in l.ifs:
+                    out.append(_re.sub(r'\b%s\b' % l.target.id, 'species', norm(t)))
         return out
     if filt(fp) == ['species.charge > 0'] and filt(fe) == ['species.charge > 0']:
         run.ok('C03-R3', 'Bremsstrahlung species filter', 'charge > 0 in both the charge cache and the density sampling')
